@@ -39,6 +39,8 @@ def inits():
         for centre in ('peak', 'trough'):
             if method == 'cycles':
                 ths = [None, dict(S.T0, amp_fraction_threshold=.1),
+                       {'amp_fraction_threshold': np.float32(.125), 'amp_consistency_threshold': np.float64(.5),
+                        'period_consistency_threshold': np.float16(.5), 'monotonicity_threshold': np.float32(.625), 'min_n_cycles': np.int64(2)},
                        {'amp_fraction': .1, 'amp_consistency': .5, 'period_consistency': .5, 'monotonicity': .6, 'min_n_cycles': 2}]
                 bks = [None]
             else:
@@ -51,7 +53,8 @@ def inits():
 
 
 def ops_for(method):
-    ops = [['fit', 'S1'], ['fit', 'S3'], ['setthr', 'min_n_cycles', 4], ['setthr', 'min_n_cycles', 1], ['load'], ['setfek', 2]]
+    ops = [['fit', 'S1'], ['fit', 'S3'], ['setthr', 'min_n_cycles', 4], ['setthr', 'min_n_cycles', 1], ['load'], ['setfek', 2],
+           ['rebind', 'min_n_cycles', 3]]
     if _TIER[0] != 'quick':
         ops.append(['fit', 'S2'])
     if method == 'cycles':
@@ -150,6 +153,9 @@ def build(init, hist):
                 return bm, led, sid, ('attribute', 'sig / fs / f_range not stored')
         elif kind == 'setthr':
             bm.thresholds[op[1]] = op[2]
+            led['thresholds'][op[1]] = op[2]
+        elif kind == 'rebind':
+            bm.thresholds = dict(bm.thresholds, **{op[1]: op[2]})          # a NEW dict object is assigned to the attribute
             led['thresholds'][op[1]] = op[2]
         elif kind == 'setfek':
             bm.find_extrema_kwargs['filter_kwargs']['n_cycles'] = op[1]       # in-place edit of a nested setting
@@ -266,7 +272,7 @@ GW = ['aabeaa', 'bbadab', 'eadaba', 'daabea', 'abdeab', 'beadaa']
 A2 = np.array([S.word_signal(w) for w in GW[:3]])
 A3 = np.array([[S.word_signal(GW[i * 3 + j]) for j in range(3)] for i in range(2)])
 GOPS = [['fit2', 0], ['fit2', None], ['fit3', 0], ['fit3', 1], ['fit3', [0, 1]], ['setthr', 'min_n_cycles', 1],
-        ['setthr', 'monotonicity_threshold', .3], ['edges', .1]]
+        ['setthr', 'monotonicity_threshold', .3], ['edges', .1], ['rebind', 'amp_consistency_threshold', .3]]
 
 
 def gbuild(init, hist):
@@ -305,6 +311,9 @@ def gbuild(init, hist):
         elif op[0] == 'setthr':
             bg.thresholds[op[1]] = op[2]
             led['thresholds'][op[1]] = op[2]
+        elif op[0] == 'rebind':
+            bg.thresholds = dict(bg.thresholds, **{op[1]: op[2]})
+            led['thresholds'][op[1]] = op[2]
         elif op[0] == 'edges':
             if last is None:
                 continue
@@ -338,9 +347,11 @@ def eval_group(case):
     seen.add(key(bg, led, last))
     while q:
         h = q.popleft()
-        if len(h) >= D:
+        if len(h) >= D + 1:
             continue
         for op in GOPS:
+            if len(h) == D and op[0] != 'edges':
+                continue          # one level deeper only for recompute_edges (fit -> edit -> recompute_edges)
             h2 = h + [op]
             bg, led, last, prob = gbuild(init, h2)
             trans += 1
